@@ -267,6 +267,7 @@ theorem inv_step (s : State) (op : Op) (h : Inv s) : Inv (step s op).1 := by
     split
     · rename_i v hv; exact open_inv s h hd v (mem_of_find?_rev hv)
     · exact h
+  | openBoth hd i sn => exact h
   | close hd =>
     simp only [step]
     split
@@ -383,6 +384,7 @@ theorem reader_kept_step (s : State) (op : Op) (hd : Nat) (v : Ver) (hc : closes
   | openLatest h' => simp only [step]; split <;> first | exact findReader_append _ _ _ _ h | exact h
   | openId h' i => simp only [step]; split <;> first | exact findReader_append _ _ _ _ h | exact h
   | openSerial h' sn => simp only [step]; split <;> first | exact findReader_append _ _ _ _ h | exact h
+  | openBoth h' i sn => exact h
   | close h' =>
     have hne : h' ≠ hd := by simpa [closes] using hc
     simp only [step]
